@@ -1,6 +1,8 @@
 #!/bin/sh
 # Offline build of the Coq development (full .vo build, never -vos).
 set -e
-cd "$(dirname "$0")/coq"
+cd "$(dirname "$0")"
+/venv/bin/python harness/extract_consts.py >/dev/null
+cd coq
 coq_makefile -f _CoqProject -o Makefile.coq
 timeout 3000 make -f Makefile.coq -j16
